@@ -134,9 +134,16 @@ def run_pool(modname, tasks, jobs, budget_s, progress=True):
         key = json.dumps(t.get('env', {}), sort_keys=True)
         groups.setdefault(key, []).append(t)
     results, skipped = [], 0
-    t_end = time.time() + budget_s
+    t_all = time.time() + budget_s
+    remaining = sum(len(ts) for ts in groups.values())
     for key, ts in groups.items():
         env = json.loads(key)
+        # worker environments run one after another: each gets a share of what is left of the budget in proportion to its
+        # number of tasks (at least a minute), so that one slow group cannot starve the others
+        left_all = max(0.0, t_all - time.time())
+        share = left_all if remaining <= len(ts) else max(min(60.0, left_all), left_all * len(ts) / remaining)
+        t_end = time.time() + share
+        remaining -= len(ts)
         ctx = mp.get_context('spawn')
         ex = cf.ProcessPoolExecutor(max_workers=jobs, mp_context=ctx, initializer=_worker_init, initargs=(env, REPO))
         futs = [ex.submit(_worker_run, modname, t) for t in ts]
